@@ -396,6 +396,25 @@ example : okWith (package sampleWs "/w".toList sampleCfg []) (fun r =>
     lookup r.fs ["t", "debug", "v_b", "bin", "build"] == some (.file (.artifact "bp-b" "only" .dev))) = true := by
   decide +kernel
 
+/-- the workspace root is itself a buildpack directory (root package + members): invoked there, only the root buildpack
+(and what it depends on) is selected, packaged and printed — not every buildpack of the workspace; the member `v/one` is
+only packaged from its own directory. From a directory inside a buildpack that is not a buildpack directory nothing is
+selected. -/
+def rootWs : Workspace :=
+  ⟨"/w".toList, [⟨"v/root", [], "r", .libcnb "root-pkg" ["root-pkg"]⟩, ⟨"v/one", "sub/one".toList, "o", .libcnb "one" ["one"]⟩]⟩
+
+example : rootIds rootWs "/w".toList = ["v/root"] := by decide +kernel
+example : okWith (package rootWs "/w".toList sampleCfg []) (fun r =>
+    r.built == ["v/root"] && r.stdout.map String.ofList == ["/w/packaged/t/debug/v_root"] &&
+    lookup r.fs ["t", "debug", "v_one"] == none) = true := by decide +kernel
+example : okWith (package rootWs "/w/sub/one".toList sampleCfg []) (fun r => r.built == ["v/one"]) = true := by decide +kernel
+example : failsWith (package rootWs "/w/src".toList sampleCfg []) .noBuildpacksFound = true := by decide +kernel
+
+/-- a crate that is its own cargo workspace: from its directory the tool sees only the buildpacks below it -/
+example : (effectiveWorkspace rootWs ["sub/one".toList] "/w/sub/one/src".toList).root = "/w/sub/one".toList ∧
+    (effectiveWorkspace rootWs ["sub/one".toList] "/w/sub/one/src".toList).dirs.map (fun b => (b.id, String.ofList b.dir)) = [("v/one", "")] ∧
+    (effectiveWorkspace rootWs ["sub/one".toList] "/w/sub".toList).root = "/w".toList := by decide +kernel
+
 /-- the main-target rule: one bin target of any name; several need one named like the package -/
 example : mainTarget "bp-b" ["only"] = .ok "only" := by rfl
 example : mainTarget "bp" ["x", "bp", "y"] = .ok "bp" := by rfl
